@@ -20,7 +20,7 @@
 From stdpp Require Import gmap.
 From Coq Require Import ZArith List Lia.
 Import ListNotations.
-From BV Require Base Heap HeapWF HeapWFOps RecycleSim RecycleRun.
+From BV Require Base Heap HeapWF HeapWFOps RecycleSim RecycleRun ConstsTie.
 From BV Require Import Recycle.
 Local Open Scope Z_scope.
 
@@ -66,6 +66,8 @@ Example C18_m2_recycling_nonvacuous : RecycleRun.Sim 100 64 0 RecycleRun.ex_h Re
   exists s2 e2, RecycleRun.rrun 100 RecycleRun.ex_h RecycleRun.ex_s0 [] RecycleRun.ex_tr s2 e2.
 Proof. exact (conj RecycleRun.ex_sim0 RecycleRun.m2_recycling_nonvacuous). Qed.
 
+(* side condition regenerated on every run (translator T7): the representation constants of the transliteration are those of the current source *)
+Lemma C18_gen_constants_match : ConstsTie.consts_tie. Proof. exact ConstsTie.consts_tie_holds. Qed.
 Print Assumptions C18_bounded_buffer.
 Print Assumptions C18_bounded_allocs.
 Print Assumptions C18_invariant_step.
@@ -74,3 +76,4 @@ Print Assumptions C18_reserve_simulates_policy.
 Print Assumptions C18_m2_step_keeps_simulation.
 Print Assumptions C18_m2_recycling_bounded.
 Print Assumptions C18_m2_recycling_nonvacuous.
+Print Assumptions C18_gen_constants_match.
